@@ -142,27 +142,35 @@ func (ipItems *IPItems) checkMerge(i, j int) int {
 // 0.0.0.0     0.0.0.0
 // ------------------------
 func (ipItems *IPItems) mergeItems() int {
-	var mergedNum int
-
 	items := ipItems.items
 	length := len(items)
 
-	for i := 0; i < length-1; i++ {
+	// items[0:num] holds the merged items found so far: sorted by startIP in
+	// descending order and pairwise disjoint
+	num := 0
+	for j := 0; j < length; j++ {
+		cur := items[j]
 
-		if items[i].endIP.Equal(net.IPv6zero) || items[i].endIP.Equal(net.IPv4zero) {
-			continue
-		}
-
-		for j := i + 1; j < length; j++ {
-			if items[j].endIP.Equal(net.IPv6zero) || items[i].endIP.Equal(net.IPv4zero) {
-				continue
+		// cur.startIP <= startIP of every merged item: cur absorbs every
+		// merged item (nearest first) it reaches
+		for num > 0 && bytes.Compare(cur.endIP, items[num-1].startIP) >= 0 {
+			if bytes.Compare(items[num-1].endIP, cur.endIP) > 0 {
+				cur.endIP = items[num-1].endIP
 			}
-
-			mergedNum += ipItems.checkMerge(i, j)
+			num--
 		}
+
+		items[num] = cur
+		num++
 	}
 
-	return mergedNum
+	// the rest of the array is unused
+	for k := num; k < length; k++ {
+		items[k].startIP = net.IPv6zero
+		items[k].endIP = net.IPv6zero
+	}
+
+	return length - num
 }
 
 // InsertPair provides insert startIP,endIP into IpItems
@@ -224,12 +232,10 @@ func (ipItems *IPItems) Sort() {
 	// Sort items according startIP by descending order
 	sort.Sort(ipItems.items)
 
-	// Merge item lines
+	// Merge item lines: merged items come first (still in descending order),
+	// unused lines last
 	mergedNum := ipItems.mergeItems()
 	length := len(ipItems.items) - mergedNum
-
-	// Sort items according startIP by descending order
-	sort.Sort(ipItems.items)
 
 	// Reslice
 	ipItems.items = ipItems.items[0:length]
